@@ -234,7 +234,7 @@ struct RegHarness : Harness {
         } else if (p == "C03") {
             d["rule"] = common + "ops: block_read(address, n) into an exact-size buffer, foreach_in(address, length) with a scripted callback (0 / positive / negative at the k-th visit); content evolved by out-of-band writes. Non-trivial = at least one read or iteration; distinct = distinct execution fingerprints";
             as.push("partial claim: decided for the reads/iterations inside generated histories; the property's full window enumeration is sampled");
-            as.push("address arithmetic that wraps 2^32 is not generated");
+            as.push("nothing of a description extends beyond the address space, and a request that would run over its end is cut so that it ends exactly at address 0xffffffff (what lies beyond the last address is undefined); 1 plan in 12 is lifted (library sees the description moved up to end at the top of the address space), 1 table in 40 has an area wider than 2^16 words");
         } else if (p == "C04") {
             d["rule"] = "descriptions are generated well-formed and then perturbed by at most one defect (no areas, areas swapped, area overlap by one word, registers swapped, register overlap by one word, register straddling an area end, register in a hole, default outside constraint / non-finite); init, post-init state, operations after a failed init, restart over surviving callback storage. Non-trivial = register_init ran; distinct = distinct execution fingerprints";
             as.push("partial claim: the property's systematic layout grid is enumeration and is sampled");
